@@ -769,6 +769,9 @@ func runC15() error {
 				boundaryOmitC15(func(c *c15Case) { omitEmit(c); rep.Count("stream.omit_boundary", 1) })
 			}
 			genC15(r.Fork(79), perWorker/4+1, func(c *c15Case) { omitEmit(c); rep.Count("stream.omit_model", 1) })
+			if full { // the two-field box under all four omit combinations
+				exhaustiveC15(w, *workers, func(c *c15Case) { omitEmit(c); rep.Count("stream.omit_exhaustive", 1) })
+			}
 			// the option pair the encoders disagree about
 			genC15(r.Fork(77), perWorker/8+1, func(c *c15Case) {
 				c.spec.OmitNil, c.spec.OmitEmpty = r.Bool(), r.Bool()
